@@ -99,3 +99,58 @@ def register(R):
         # anything else is the parse error of the head's step value
         return And(nonempty(old), is_failure(v))
     s.on_raise("stop_keeps_every_pending_row", raise_post, P)
+    register_object_iterator(R)
+
+
+def register_object_iterator(R):
+    """ObjectIterator.__next__ (requests sampled in memory): same windowed protocol over a tuple of objects; the step value is
+    read with getattr(item, step_attr_name) (modelled as an uninterpreted function of the object and the attribute name)."""
+    ITEM = AbstractTy("Any")
+    ITEMS = SeqTy(ITEM)
+    VALT = AbstractTy("StepValue")
+    STOP = FuncTy("ObjStopCondition", [VALT], BoolT)
+    ex = uf("__ex__")
+
+    def attr_of(x, name):
+        return ex.uf_apply("getattr_dyn", [x, name], VALT)
+
+    def stop(f, v):
+        return ex.uf_apply("call_Fn_ObjStopCondition", [f, v], BoolT)
+
+    key = IT + "ObjectIterator.__next__"
+    s = R.spec(key, ret=OptTy(ITEM))
+    s.stateful({"_iterator": ("iterator", ITEMS), "history": OptTy(ITEM), "step_attr_name": StrT, "stop_condition": STOP})
+    rows_of = lambda st: st.fields["_iterator"].rows
+    pos_of = lambda st: st.fields["_iterator"].pos
+    hist = lambda st: st.fields["history"]
+    has_hist = lambda st: hist(st).is_some()          # a stored object (instances are truthy)
+    s.requires("reader_state", lambda a: And(pos_of(a.self) >= 0, pos_of(a.self) <= rows_of(a.self).len()))
+
+    def head(st):
+        return Ite(has_hist(st), hist(st).val(), Sym(ITEM, rows_of(st).e[pos_of(st).e]))
+
+    def nonempty(st):
+        return Or(has_hist(st), pos_of(st) < rows_of(st).len())
+
+    def head_value(st):
+        return attr_of(head(st), st.fields["step_attr_name"])
+
+    def same_config(a, new):
+        return And(v_eq(new.fields["step_attr_name"], a.self.fields["step_attr_name"]), v_eq(new.fields["stop_condition"], a.self.fields["stop_condition"]),
+                   rows_of(new) == rows_of(a.self))
+
+    def ret_post(a, r, new):
+        old = a.self
+        return And(nonempty(old), r.is_some(), r.val() == head(old), stop(old.fields["stop_condition"], head_value(old)),
+                   Not(has_hist(new)), pos_of(new) == Ite(has_hist(old), pos_of(old), pos_of(old) + 1), same_config(a, new))
+    s.ensures_state("returns_head_of_pending_inside_the_window", ret_post, P)
+
+    def raise_post(a, cls, exc, new):
+        old = a.self
+        if cls != "StopIteration":
+            return False
+        unchanged = Or(And(v_eq(hist(new), hist(old)), pos_of(new) == pos_of(old)),
+                       And(Not(has_hist(old)), pos_of(old) < rows_of(old).len(), pos_of(new) == pos_of(old) + 1,
+                           hist(new).is_some(), hist(new).val() == Sym(ITEM, rows_of(old).e[pos_of(old).e])))
+        return And(same_config(a, new), unchanged, Or(Not(nonempty(old)), Not(stop(old.fields["stop_condition"], head_value(old)))))
+    s.on_raise("stop_keeps_every_pending_item", raise_post, P)
